@@ -800,9 +800,9 @@ func run(c Sx) Result {
 				o1 = o3
 			}
 		}
-		_, o2, err2 := export(ks2, accs[0], wrong, newpass)
-		if o2 == nil {
-			o2 = L(I(0))
+		js2, o2, err2 := export(ks2, accs[0], wrong, newpass)
+		if err2 == nil {
+			o2 = safeDecryptKey(js2, string(newpass)).sx(false)
 		}
 		if samePass(wrong, pass) {
 			res.Tags = append(res.Tags, "hmac-equivalent-pass")
